@@ -97,10 +97,17 @@ fn exercise<D: AsRef<[u8]>>(f: &Fst<D>, kvs: &[Kv], version: u64, auts: &[TableD
     }
     for a in auts {
         n += 1;
-        let got = drain(f.search(a).ge(b"a").into_stream())?;
-        let want: Vec<Kv> = kvs.iter().filter(|(k, _)| a.accepts(k) && k.as_slice() >= &b"a"[..]).cloned().collect();
-        if got != want {
-            return Err(format!("search {} ge(a) gave {} expected {}", a.describe(), kvs_str(&got), kvs_str(&want)));
+        for bk in [&b"a"[..], b"ab", b"b", b"ba", b"c"] {
+            let got = drain(f.search(a).ge(bk).into_stream())?;
+            let want: Vec<Kv> = kvs.iter().filter(|(k, _)| a.accepts(k) && k.as_slice() >= bk).cloned().collect();
+            if got != want {
+                return Err(format!("search {} ge({}) gave {} expected {}", a.describe(), key_str(bk), kvs_str(&got), kvs_str(&want)));
+            }
+            let got = drain(f.search(a).gt(bk).into_stream())?;
+            let want: Vec<Kv> = kvs.iter().filter(|(k, _)| a.accepts(k) && k.as_slice() > bk).cloned().collect();
+            if got != want {
+                return Err(format!("search {} gt({}) gave {} expected {}", a.describe(), key_str(bk), kvs_str(&got), kvs_str(&want)));
+            }
         }
     }
     // set operations against a v3 FST of the even-indexed keys built by the real builder
@@ -569,7 +576,12 @@ pub fn replay(case: &Value) -> Result<String, String> {
 
 fn sample_auts() -> Vec<TableDfa> {
     let all = all_dfas(2, ClassFn::IsA, false);
-    all.into_iter().step_by(11).collect()
+    let mut v: Vec<TableDfa> = all.into_iter().step_by(11).collect();
+    // two automata with a dead state that reports can_match == false: one dies on the
+    // class 'a', one on every other byte (a lower bound can lead into the dead state)
+    v.push(TableDfa { classes: ClassFn::IsA, delta: vec![[1, 0], [1, 1]], accept: vec![true, false], can: vec![true, false], always: vec![false, false] });
+    v.push(TableDfa { classes: ClassFn::IsA, delta: vec![[0, 1], [1, 1]], accept: vec![true, false], can: vec![true, false], always: vec![false, false] });
+    v
 }
 
 fn do_model(kvs: &[Kv], auts: &[TableDfa], mmap: bool, st: &mut Stats, rep: &Reporter) {
